@@ -862,7 +862,10 @@ where
                                 // After a deserialization error, skip remaining events in the
                                 // current document and try to recover at the next document boundary.
                                 // An I/O error (or input cap breach) ends the stream.
-                                if matches!(e, Error::IOError { .. }) || !self.src.skip_to_next_document() {
+                                if matches!(e, Error::IOError { .. })
+                                || !self.src.skip_to_next_document()
+                                || (e.is_parser_error() && !self.src.io_error_pending())
+                            {
                                     self.finished = true;
                                 }
                                 return Some(Err(e));
@@ -1255,7 +1258,10 @@ where
                                 // After a deserialization error, skip remaining events in the
                                 // current document and try to recover at the next document boundary.
                                 // An I/O error (or input cap breach) ends the stream.
-                                if matches!(e, Error::IOError { .. }) || !self.src.skip_to_next_document() {
+                                if matches!(e, Error::IOError { .. })
+                                || !self.src.skip_to_next_document()
+                                || (e.is_parser_error() && !self.src.io_error_pending())
+                            {
                                     self.finished = true;
                                 }
                                 return Some(Err(e));
@@ -2001,7 +2007,10 @@ where
                             // If no next document is found, mark as finished.
                             // An I/O error (or input cap breach) ends the stream: what follows
                             // would be parsed from truncated input.
-                            if matches!(e, Error::IOError { .. }) || !self.src.skip_to_next_document() {
+                            if matches!(e, Error::IOError { .. })
+                                || !self.src.skip_to_next_document()
+                                || (e.is_parser_error() && !self.src.io_error_pending())
+                            {
                                 self.finished = true;
                             }
                         }
